@@ -37,6 +37,9 @@ def runContainers (lines : List String) : List String :=
         let st := applyOp st (.move (hnum h) (hnum g))
         go st rest (vecLine (hnum g) (st.spec.get (hnum g)) :: vecLine (hnum h) (st.spec.get (hnum h)) :: acc)
       | ["vpush", h, x] => let st := applyOp st (.push (hnum h) (nat! x)); go st rest (vecLine (hnum h) (st.spec.get (hnum h)) :: acc)
+      | ["vpushmove", h, i] =>
+        let x := (st.spec.get (hnum h)).getD (nat! i) 0
+        let st := applyOp st (.push (hnum h) x); go st rest (vecLine (hnum h) (st.spec.get (hnum h)) :: acc)
       | ["vpushself", h, i] =>
         let x := (st.spec.get (hnum h)).getD (nat! i) 0
         let st := applyOp st (.push (hnum h) x); go st rest (vecLine (hnum h) (st.spec.get (hnum h)) :: acc)
@@ -49,6 +52,11 @@ def runContainers (lines : List String) : List String :=
       | ["sset", h, t] =>
         let t := if t == "\"\"" then "" else t
         let st := { st with strs := st.strs.set (hnum h) t }; go st rest (strLine (hnum h) t :: acc)
+      | ["ssub", h, k] =>
+        let t := String.ofList ((st.strs.getD (hnum h) "").toList.drop (nat! k))
+        let st := { st with strs := st.strs.set (hnum h) t }; go st rest (strLine (hnum h) t :: acc)
+      | ["snull", h] =>
+        let st := { st with strs := st.strs.set (hnum h) "" }; go st rest (strLine (hnum h) "" :: acc)
       | ["scopy", h, g] | ["sassign", h, g] =>
         let t := st.strs.getD (hnum g) ""
         let st := { st with strs := st.strs.set (hnum h) t }; go st rest (strLine (hnum h) t :: acc)
